@@ -201,7 +201,10 @@ class Obligation:
             if instantiate != "lean":
                 fs += T.sum_axioms(fs, done=done, signs=True, pairs=False)
             fs += T.ext_axioms(fs)
-            fs += T.theory_axioms(fs, extra_trig=extra_trig)
+            ta = T.theory_axioms(fs, extra_trig=extra_trig)
+            fs += ta
+            if extra_trig:
+                fs += T.theory_axioms(fs, extra_trig=True)      # second round: periodicity of the applications the first round introduced
             return fs
         done = set()
         for _ in range(2):
